@@ -4,7 +4,7 @@
    onnx_ir/_symbolic_shapes.py and the constructor trees the SymbolicDim operators ask SymPy to build; the
    function table and the operator sets come from Gen/C16Gen.v, regenerated from the source on every run. *)
 From Coq Require Import ZArith NArith List Bool QArith Qround.
-From IRV Require Import Base.Exn Gen.C16Gen C16.Model C16.ProofsEval C16.ProofsParser C16.ProofsParser2 C16.ProofsLexer C16.ProofsStructure C16.ProofsPrintMin.
+From IRV Require Import Base.Exn Gen.C16Gen C16.Model C16.ProofsEval C16.ProofsParser C16.ProofsParser2 C16.ProofsLexer C16.ProofsStructure C16.ProofsPrintMin Gen.C16OpsGen C16.Ops C16.ProofsOps.
 Import ListNotations.
 
 (* The operator sets of every precedence level, the shape of the descent (which _parse_* calls which), the
@@ -202,3 +202,57 @@ Example C16_ex_print_min_corner_cases :
      EBin BPow (EBin BPow a b) c; EBin BPow a (EBin BPow b c); EBin BMul a (EBin BAdd b c);
      EBin BMod (ENeg a) (EBin BMax b (EUn FCeil (EBin BDiv a c))); ETrunc (EBin BDiv (EBin BSub a b) (EInt 2))] = true.
 Proof. repeat split; vm_compute; reflexivity. Qed.
+
+(* The arithmetic methods of SymbolicDim, TRANSLATED statement by statement from _core.py on every run
+   (Gen/C16OpsGen.v: op_<method>_int / _dim, reflected and unary methods), build expressions whose exact value is
+   Python's arithmetic on the operands' values: +, -, * and their reflected forms, // = Z.div and % = Z.modulo
+   (sign of the divisor), / = the exact rational quotient (int branch Rational(1, k) * expr included), reflected
+   subtraction and true division with the operands in the right order, neg, and floor/ceil/trunc of an integer.
+   An edit of any branch (e.g. __truediv__ building a floor division) changes the generated definition and this
+   theorem no longer checks. *)
+Theorem C16_operator_methods :
+  forall s a b x y k, isZ (eval s a) x -> isZ (eval s b) y ->
+    (* dim op dim *)
+    (isZ (eval s (op_add_dim a b)) (x + y) /\ isZ (eval s (op_sub_dim a b)) (x - y) /\
+     isZ (eval s (op_mul_dim a b)) (x * y) /\
+     (y <> 0%Z -> isZ (eval s (op_floordiv_dim a b)) (x / y) /\ isZ (eval s (op_mod_dim a b)) (x mod y) /\
+                  isQ (eval s (op_truediv_dim a b)) (inject_Z x / inject_Z y))) /\
+    (* dim op int and int op dim *)
+    (isZ (eval s (op_add_int a k)) (x + k) /\ isZ (eval s (op_radd_int a k)) (k + x) /\
+     isZ (eval s (op_sub_int a k)) (x - k) /\ isZ (eval s (op_rsub_int a k)) (k - x) /\
+     isZ (eval s (op_mul_int a k)) (x * k) /\ isZ (eval s (op_rmul_int a k)) (k * x) /\
+     (k <> 0%Z -> isZ (eval s (op_floordiv_int a k)) (x / k) /\ isZ (eval s (op_mod_int a k)) (x mod k) /\
+                  isQ (eval s (op_truediv_int a k)) (inject_Z x / inject_Z k)) /\
+     (x <> 0%Z -> isQ (eval s (op_rtruediv_int a k)) (inject_Z k / inject_Z x))) /\
+    (* unary *)
+    (isZ (eval s (op_neg a)) (- x) /\ isZ (eval s (op_floor a)) x /\ isZ (eval s (op_ceil a)) x /\
+     isZ (eval s (op_trunc a)) x) /\
+    (* math.floor / math.ceil / math.trunc of a quotient of dimensions *)
+    (y <> 0%Z -> isZ (eval s (op_floor (op_truediv_dim a b))) (x / y) /\
+                 isZ (eval s (op_ceil (op_truediv_dim a b))) (- ((- x) / y)) /\
+                 isZ (eval s (op_trunc (op_truediv_dim a b))) (Z.quot x y)).
+Proof.
+  intros s a b x y k Ha Hb. split; [exact (ops_dim s a b x y Ha Hb)|].
+  split; [exact (ops_int s a x Ha k)|]. split; [exact (ops_unary s a x Ha)|].
+  intros Hy. exact (ops_round_quotient s a b x y Ha Hb Hy).
+Qed.
+Print Assumptions C16_operator_methods.
+
+Example C16_ex_operator_methods :   (* (N - 9) / 2 at N = 2 is -7/2 ; 3 - N ; 7 / N ; trunc((N - 9) / 2) = -3 *)
+  let n := ESym [78%N] in let s := [([78%N], 2%Z)] in
+  eval s (op_truediv_int (op_sub_int n 9) 2) = Some (-7 # 2) /\
+  eval_int s (op_rsub_int n 3) = Some 1%Z /\ eval s (op_rtruediv_int n 7) = Some (7 # 2) /\
+  eval_int s (op_trunc (op_truediv_int (op_sub_int n 9) 2)) = Some (-3)%Z /\
+  to_expr (KBin BbSub (KInt 3) (KSym [78%N])) = EBin BSub (EInt 3) n.
+Proof. repeat split; vm_compute; reflexivity. Qed.
+
+(* _ALLOWED_FUNCTIONS, every key (both spellings), denotes the operator of its name: the extracted table is exactly
+   max/Max -> Max, min/Min -> Min, floor, ceiling, Abs, sign, sqrt, mod/Mod -> Mod; so every name the printers emit
+   (and its lower-case alias) parses back to the same operator. *)
+Theorem C16_function_table_exact :
+  map (fun kv => (fst kv, lookup_fn (fst kv))) allowed_functions =
+  [ ([109; 97; 120]%N, Some KMax); (n_Max, Some KMax); ([109; 105; 110]%N, Some KMin); (n_Min, Some KMin);
+    (n_floor, Some (K1 FFloor)); (n_ceiling, Some (K1 FCeil)); (n_Abs, Some (K1 FAbs)); (n_sign, Some (K1 FSign));
+    (n_sqrt, Some (K1 FSqrt)); ([109; 111; 100]%N, Some KMod); (n_Mod, Some KMod) ].
+Proof. exact function_table_exact. Qed.
+Print Assumptions C16_function_table_exact.
